@@ -14,7 +14,7 @@ Property theorems only.  Structure:
   list of `parser_cache` leaks for a header that starts with a continuation line
   (`parser_cache_leak_witness`) — which is why the repaired decorator keeps it on the instance.
 * obligations over the tables regenerated from the source on every run
-  (`effects_covered`, `no_file_write_sites`, `plugins_resolve_partial`, `writers_resolve`,
+  (`effects_covered`, `no_file_write_sites`, `plugins_resolve`, `writers_resolve`,
   `fieldtypes_resolve`, `plugin_lists_nonempty`).
 
 Trusted, not proved: that the `ast` extraction finds every process-wide cell and that each real
@@ -179,17 +179,11 @@ theorem effects_covered : ∀ e ∈ effects, (coverOf e).isSome = true := by
 theorem no_file_write_sites : fileWriteSites = [] := by
   decide +kernel
 
-/-- the plug-in names known not to resolve (finding `plugin:parsers.rinex_nav`: the dispatcher
-function does not accept the `encoding` argument `parse_file` always passes) -/
-def knownBroken : List String := ["rinex_nav"]
-
-/-
-Full statement: ∀ p ∈ parserPlugins, p.2 = .parserClass ∨ p.2 = .parserFactory
--/
 /-- Every listed parser name loads and is a parser class or a parser factory taking
-`(file_path, encoding)` — except the names in `knownBroken` (a recorded finding). -/
-theorem plugins_resolve_partial :
-    ∀ p ∈ parserPlugins, p.1 ∉ knownBroken → (p.2 = .parserClass ∨ p.2 = .parserFactory) := by
+`(file_path, encoding)` (full statement: since the `fix:` of the `rinex_nav` dispatcher no name is
+excepted). -/
+theorem plugins_resolve :
+    ∀ p ∈ parserPlugins, (p.2 = .parserClass ∨ p.2 = .parserFactory) := by
   decide +kernel
 
 theorem writers_resolve : ∀ p ∈ writerPlugins, p.2 = .writerFunction := by
@@ -242,7 +236,7 @@ end Midgard.Props.C16
 #print axioms Midgard.Props.C16.parser_cache_repair_conservative
 #print axioms Midgard.Props.C16.effects_covered
 #print axioms Midgard.Props.C16.no_file_write_sites
-#print axioms Midgard.Props.C16.plugins_resolve_partial
+#print axioms Midgard.Props.C16.plugins_resolve
 #print axioms Midgard.Props.C16.writers_resolve
 #print axioms Midgard.Props.C16.fieldtypes_resolve
 #print axioms Midgard.Props.C16.plugin_lists_nonempty
